@@ -232,6 +232,16 @@ class SymEval:
         two = {"add": "+", "sub": "-", "subtract": "-", "mul": "*", "multiply": "*", "div": "/", "divide": "/", "true_divide": "/"}
         if name in two and len(args) == 2:
             return binop(two[name], self.ev(args[0]), self.ev(args[1]))
+        if name in ("addcmul", "addcdiv") and len(args) == 3:
+            # a + value * b * c  /  a + value * b / c
+            val = next((k.value for k in e.keywords if k.arg == "value"), None)
+            prod = binop("*" if name == "addcmul" else "/", self.ev(args[1]), self.ev(args[2]))
+            if val is not None:
+                prod = binop("*", self.ev(val), prod)
+            return binop("+", self.ev(args[0]), prod)
+        if name == "lerp" and len(args) == 3:
+            a, b, w = (self.ev(x) for x in args)
+            return binop("+", a, binop("*", w, binop("-", b, a)))
         if name == "sqrt" and len(args) == 1:
             return self.power(self.ev(args[0]), Fraction(1, 2))
         if name == "cbrt" and len(args) == 1:
